@@ -197,13 +197,29 @@ func ListEnded(rec *Recorder, before int) (string, bool) {
 	}
 	// "buffer full" is only recorded when the matching limit was really reached; a list that simply
 	// came back gets no Abort event (clause R5b then judges the silent return)
-	pulled := 0
+	// What the matching buffer can hold, in stream positions [bufStart, bufEnd): a prefetch appends to it; once the handlers
+	// have consumed up to (or beyond) its end it is empty, and the next prefetch starts a new one where the stream stands
+	// - a later matching round then has the whole limit to itself.
+	consumed, bufStart, bufEnd := 0, 0, 0
 	for _, e := range rec.Hist {
-		if e["e"] == "Pull" {
-			pulled += e["n"].(int)
+		switch e["e"] {
+		case "Pull":
+			if consumed >= bufEnd {
+				bufStart, bufEnd = consumed, consumed
+			}
+			bufEnd += e["n"].(int)
+		case "HRead":
+			if segs, ok := e["segs"].(Segs); ok {
+				for _, sg := range segs {
+					if sg[1] > consumed {
+						consumed = sg[1]
+					}
+				}
+			}
 		}
 	}
-	if pulled >= layer4.MaxMatchingBytes {
+	pulled, drainedAt := bufEnd, bufStart
+	if pulled-drainedAt >= layer4.MaxMatchingBytes {
 		return "full", true
 	}
 	return "", false
